@@ -105,6 +105,46 @@ def check(ctx, case, reqs, pend):
                 exp = {col: A.direct_cells(case, func, cols1d, ishape, col) for col in cols}
                 if not c03.compare(ctx, "%s.%s block %s" % (kind, func, js), bv, bm, exp, ishape, K, 0, desc, "C13-block-direct"):
                     break
+    # the same stack with the worker pool engaged (the cubes turn it on by themselves for large inputs): every block is still
+    # the block of the serial evaluation - seeded line-level interleavings of the sub-cube tasks and a real ThreadPool
+    if nsub >= 2 and N > 0:
+        import multiprocessing.pool
+        import pool_common as P
+        for kind in ("ccube", "xcube"):
+            for func in ("count", "mean"):
+                try:
+                    ref = A.call(cubes[kind], func, case, ("pair", 0))
+                except Exception:
+                    continue
+                pools = [("seeded", P.SeededInterleavingPool(ctx.rng.randrange(10 ** 6), pr)) for pr in (0.3, 0.7)]
+                pools.append(("threadpool", multiprocessing.pool.ThreadPool))
+                for pname, pool in pools:
+                    desc = A.small_desc(case, {"func": func, "cube": kind, "pooled": pname, "seed": getattr(pool, "seed", None)})
+                    ctx.case(desc, nontrivial=True)
+                    ctx.hit("pooled_stack:" + pname)
+                    cube = (ccube(idxs, interacting_shape=ishape) if kind == "ccube"
+                            else xcube([d.astype(np.int64) for d in dense], interacting_shape=ishape))
+                    cube.parallel = True
+                    cube.poolsize = 3
+                    try:
+                        if kind == "xcube":
+                            cube.pool_class = pool
+                            got = P_run(lambda: A.call(cube, func, case, ("pair", 0)))
+                        else:
+                            with P.ccube_pool(pool):
+                                got = P_run(lambda: A.call(cube, func, case, ("pair", 0)))
+                    except core.Infra:
+                        raise
+                    except Exception as e:
+                        ctx.oracle_fail("%s.%s with the pool engaged (%s) raised %s: %s" % (kind, func, pname, type(e).__name__, str(e)[:60]),
+                                        desc, cls="C13-raises")
+                        continue
+                    gv, gm = got
+                    if gv.shape != ref[0].shape or not np.array_equal(gm, ref[1]) or not np.array_equal(gv[~gm], ref[0][~ref[1]]):
+                        bad = "shape" if gv.shape != ref[0].shape else tuple(int(x) for x in np.argwhere((gm != ref[1]) | ((gv != ref[0]) & ~gm))[0])
+                        ctx.oracle_fail("%s.%s with the pool engaged (%s): the stacked result differs from the serial one at %s - a block is "
+                                        "no longer the aggregate over its own slices" % (kind, func, pname, bad), desc, cls="C13-block")
+                        break
     # a long-lived index cube whose multi-axis dimension is updated in place between two aggregate calls
     multi_axes = [a for a, d in enumerate(dense) if d.ndim > 1]
     if multi_axes and N > 0:
